@@ -588,6 +588,196 @@ def oracle_c20(sc_direct, tr_direct, tr_http, jura_triggered_required=True):
 
 
 # ------------------------------------------------------------------------------------------------
+# the crate's own in-process client (uistv1_client::TestClient), in lockstep with the oracle-free model
+
+IMPORTS_CLIENT = ("From Alator Require Import Model.Num Model.Quirks Model.Exchange Model.Uist Model.Server "
+                  "Model.Penelope Check.Eqb Check.ExchCheck Check.ServerCheck Check.ClientCheck.")
+
+
+def gen_client_scenario(rng, n_ops=None, big_batches=False):
+    """one TestClient::single over one dataset; further backtests through init; every endpoint of the trait"""
+    ds = gen_dataset(rng, "A", "uist", weird=rng.random() < 0.2)
+    ids = [0]
+    last = 1
+    ops = []
+    n_ops = n_ops or rng.randint(10, 40)
+    for _ in range(n_ops):
+        r = rng.random()
+        bid = rng.choice(ids) if rng.random() < 0.92 else rng.choice([last + 1, 77])
+        if r < 0.30:
+            ops.append(dict(op="tick", id=bid))
+        elif r < 0.42:
+            ops.append(dict(op="now", id=bid))
+        elif r < 0.50:
+            ops.append(dict(op="fetch", id=bid))
+        elif r < 0.78:
+            if big_batches and rng.random() < 0.3:
+                for o in exch.uist_batch(rng, rng.choice([21, 22, 33, 47, 64, 65]), rng.choice(exch.ARRANGEMENTS)):
+                    ops.append(dict(op="insert", id=bid, order=o))
+            else:
+                ops.append(dict(op="insert", id=bid, order=exch.gen_uist_order(rng, False)))
+        elif r < 0.84:
+            ops.append(dict(op="delete", id=bid, order_id=rng.randrange(6)))
+        elif r < 0.93:
+            nm = rng.choice(["A", "A", "A", "ZZ"])
+            ops.append(dict(op="init", name=nm))
+            if nm == "A":
+                last += 1
+                ids.append(last)
+        else:
+            ops.append(dict(op="info", id=bid))
+    return dict(kind="uclient", datasets=[ds], ops=ops)
+
+
+def g_client_res(op, r):
+    """observed response of the client as an sres term"""
+    o = op["op"]
+    if isinstance(r, dict) and "panic" in r:
+        return "RPanic"
+    some = "some" in r
+    val = r.get("some")
+    if o == "tick":
+        if not some:
+            return gc("RTick", "None")
+        out = gt(gl([exch.g_trade(t) for t in val["trades"]]),
+                 gl([gt(gn(x["id"] if x["id"] is not None else 2 ** 64), exch.g_uorder(x)) for x in val["admitted"]]))
+        return gc("RTick", "(Some %s)" % gt(gb(val["has_next"]), out))
+    if o == "fetch":
+        return gc("RFetch", go(val if some else None, g_row))
+    if o == "init":
+        return gc("RId", go(val if some else None, gn))
+    if o in ("insert", "delete"):
+        return gc("RUnit", "(Some tt)" if some else "None")
+    if o == "info":
+        return gc("RInfo", go(val["dataset"] if some else None, gs))
+    if o == "now":
+        return gc("RNow", go(val if some else None, lambda v: gt(gz(v["now"]), gb(v["has_next"]))))
+    raise ValueError(o)
+
+
+def g_client_op(op):
+    o = op["op"]
+    if o == "tick":
+        return gc("STick", gn(op["id"]), "[]")
+    if o == "fetch":
+        return gc("SFetch", gn(op["id"]))
+    if o == "init":
+        return gc("SInit", gs(op["name"]))
+    if o == "insert":
+        oo = op["order"]
+        return gc("SInsert", exch.g_uorder(dict(type=oo["type"], symbol=oo["symbol"], shares=oo["shares"], price=oo["price"])),
+                  gn(op["id"]))
+    if o == "delete":
+        return gc("SDelete", gn(op["order_id"]), gn(op["id"]))
+    if o == "info":
+        return gc("SInfo", gn(op["id"]))
+    if o == "now":
+        return gc("SNow", gn(op["id"]))
+    raise ValueError(o)
+
+
+def g_ccase(sc, tr):
+    d = sc["datasets"][0]
+    calls = gl([gt(gf(q[0]), gf(q[1]), gz(q[2]), gs(q[3])) for q in d["quotes"]])
+    hist = gl([gt(g_client_op(op), g_client_res(op, r)) for op, r in zip(sc["ops"], tr["results"])])
+    return gc("mkCCase", gn(int(tr.get("order_size", 1))), gs(d["name"]), calls, hist)
+
+
+def client_responses_for(sc, tr, bid):
+    return [(k, op, r) for k, (op, r) in enumerate(zip(sc["ops"], tr["results"])) if op.get("id") == bid]
+
+
+def oracle_client(prop, sc, tr, run_one):
+    """direct readings on a TestClient history. C08: the responses for one backtest id do not depend on what is
+    interleaved on other ids (the same history with the other ids' requests removed gives the same responses), and
+    unknown ids are rejected. C07/C01: `now` shows date index min(k, N-1) and has_next iff k < N after k ticks."""
+    ops, res = sc["ops"], tr["results"]
+    if any(isinstance(r, dict) and "panic" in r for r in res):
+        return None
+    ids = sorted({op["id"] for op in ops if "id" in op})
+    created = {0}
+    nxt = 1
+    for op, r in zip(ops, res):
+        if op["op"] == "init" and "some" in r:
+            created.add(r["some"])
+    if prop == "C08":
+        for op, r, k in zip(ops, res, range(len(ops))):
+            if "id" in op and op["id"] not in created and "some" in r:
+                return dict(step=k, what="a request naming the unknown backtest %d was answered instead of rejected" % op["id"], op=op)
+        for bid in ids:
+            if bid not in created:
+                continue
+            proj = dict(sc, ops=[op for op in ops if op["op"] == "init" or op.get("id") == bid])
+            tr2 = run_one(proj)
+            a = [r for _, _, r in client_responses_for(sc, tr, bid)]
+            b = [r for _, _, r in client_responses_for(proj, tr2, bid)]
+            for j, (x, y) in enumerate(zip(a, b)):
+                if json.dumps(x, sort_keys=True) != json.dumps(y, sort_keys=True):
+                    k = client_responses_for(sc, tr, bid)[j][0]
+                    return dict(step=k, what="the response to request %d on backtest %d differs from the response to the same "
+                                "request when the requests on other backtests are left out" % (j, bid),
+                                with_others=x, alone=y, op=ops[k])
+        return None
+    # clock readings
+    dates = script_dates(sc, sc["datasets"][0]["name"])
+    if dates != sorted(dates):
+        return None
+    N = len(dates)
+    ticks = {}
+    for k, (op, r) in enumerate(zip(ops, res)):
+        bid = op.get("id")
+        if bid not in created:
+            continue
+        if op["op"] == "tick" and "some" in r:
+            ticks[bid] = ticks.get(bid, 0) + 1
+            if r["some"]["has_next"] != (ticks[bid] < N):
+                return dict(step=k, what="tick %d of a %d-date dataset reported has_next=%s" % (ticks[bid], N, r["some"]["has_next"]))
+        if op["op"] == "now" and "some" in r:
+            kt = ticks.get(bid, 0)
+            want = dict(now=dates[min(kt, N - 1)], has_next=kt < N)
+            if r["some"] != want:
+                return dict(step=k, what="after %d ticks `now` on backtest %d should answer %s" % (kt, bid, want), got=r["some"])
+    return None
+
+
+def run_client_lockstep(res, prop, tier, seed, wd):
+    """-> coverage dict; reports a violation on res when the lockstep comparison fails"""
+    rng = random.Random(seed + 23)
+    n = {"quick": 40, "thorough": 600}[tier]
+    scs = [gen_client_scenario(rng, big_batches=(i % 4 == 3)) for i in range(n)]
+    trs = run_harness_sharded("server", scs, wd)
+    terms = [g_ccase(sc, tr) for sc, tr in zip(scs, trs)]
+    failing = eval_cases(wd, "client", IMPORTS_CLIENT, terms, "ccase_ok", per_shard_min=3)
+    cov = dict(client_lockstep_histories=len(scs), client_lockstep_requests=sum(len(t["results"]) for t in trs),
+               client_lockstep_mismatching=len(failing),
+               client_lockstep_rule="uistv1_client::TestClient::single over a Penelope loaded from the scenario's script, "
+                                    "requests through the UistClient trait on several backtests (init), compared response by "
+                                    "response with the model running the WHOLE history from its own initial state (no "
+                                    "re-synchronisation, no sort oracle: Model/ExchangeStd.v)")
+    if failing:
+        def run_one(sc):
+            return run_harness("server", [sc], wd, tag="cw")[0]
+        found = None
+        for i in failing:
+            f = oracle_client(prop, scs[i], trs[i], run_one)
+            if f:
+                found = (i, f)
+                break
+        i0 = failing[0]
+        detail = eval_term(wd, "client_detail", IMPORTS_CLIENT, "ccase_mismatches %s" % terms[i0])
+        broken = dict(theorem="Props/%s.v" % prop, lockstep_mismatches_first_history=detail[-600:],
+                      histories_mismatching=len(failing))
+        if found:
+            i, f = found
+            res.violation(dict(kind="property-fails-on-implementation", component="uist-client", found_in="client history %d" % i,
+                               failure=f, scenario=scs[i], correspondence=broken), "violation")
+        else:
+            res.violation(dict(kind="correspondence-or-refuted-theorem", component="uist-client", no_longer_checks=broken,
+                               scenario=scs[i0]), "unproved", no_input=True)
+    return cov
+
+
+# ------------------------------------------------------------------------------------------------
 # checks
 
 SPROJ = {
@@ -697,6 +887,9 @@ def run_property(res, prop, tier, seed, replay, prop_files, extra=None):
         op_mix={k: sum(1 for sc in scs for o in sc["ops"] if o["op"] == k)
                 for k in ("tick", "fetch", "now", "insert", "delete", "init", "new", "info")},
         situations=sorted("/".join(str(x) for x in k) for k in keys))
+    if prop in ("C07", "C08", "C01") and not replay:
+        cov.update(run_client_lockstep(res, prop, tier, seed, wd))
+        cov["evaluations"] += cov["client_lockstep_requests"]
     if extra:
         extra(cov)
     res.coverage.update(cov)
